@@ -1,2 +1,81 @@
-(* C02 -- Committed messages survive leader changes; replicas never diverge below the HW. (theorems follow) *)
-From LB Require Import Base.Prelude Repl.Cluster.
+(* C02 -- Committed messages survive leader changes; replicas never diverge below the HW. *)
+From LB Require Import Base.Prelude Meta.Fsm Repl.Cluster Repl.ClusterProofs Repl.EpochCache Repl.EpochCacheProofs.
+Open Scope Z_scope.
+
+(* The protocol model (Repl.Cluster): publishes at the leader, fetches of any size by reconciled
+   followers, elections of a reconciled in-sync replica in a fresh epoch, reconciliation (a replica
+   asks the leader where its last epoch ends and truncates), ISR shrinks and expansions, the
+   commit rule with any minimum ISR size -- in any order, for any number of replicas. *)
+
+(* every state of every history satisfies the invariant ... *)
+Theorem C02_invariant : forall replicas L e m xs, In L replicas -> Inv (run true (init_cluster replicas L e m) xs).
+Proof. intros replicas L e m xs HL. apply run_inv. apply inv_init. exact HL. Qed.
+Print Assumptions C02_invariant.
+
+(* ... from which: any two replicas hold identical entries at every offset at or below both of
+   their high watermarks; *)
+Theorem C02_replicas_agree_below_hw : forall c r1 r2 o e1 e2, Inv c ->
+  Z.of_nat o <= hw_of c r1 -> Z.of_nat o <= hw_of c r2 ->
+  nth_error (log_of c r1) o = Some e1 -> nth_error (log_of c r2) o = Some e2 -> e1 = e2.
+Proof. exact replicas_agree_below_hw. Qed.
+Print Assumptions C02_replicas_agree_below_hw.
+
+(* the leader and every in-sync replica -- the only ones that can be elected -- hold everything
+   that was ever committed, and every replica's HW lies within it; *)
+Theorem C02_electable_replicas_hold_committed : forall c r, Inv c -> In r (c_isr c) -> prefix (c_committed c) (log_of c r).
+Proof. exact isr_holds_committed. Qed.
+Print Assumptions C02_electable_replicas_hold_committed.
+
+Theorem C02_leader_holds_committed : forall c, Inv c -> prefix (c_committed c) (log_of c (c_leader c)).
+Proof. exact leader_holds_committed. Qed.
+Print Assumptions C02_leader_holds_committed.
+
+Theorem C02_hw_within_committed : forall c r, Inv c -> hw_of c r + 1 <= Z.of_nat (length (c_committed c)).
+Proof. exact hw_is_committed. Qed.
+Print Assumptions C02_hw_within_committed.
+
+(* and what is committed stays committed, at the same offsets, whatever happens next. *)
+Theorem C02_committed_survives : forall xs c, Inv c -> prefix (c_committed c) (c_committed (run true c xs)).
+Proof. exact committed_survives. Qed.
+Print Assumptions C02_committed_survives.
+
+(* The reconciliation step: with the leader's log ahead only by later epochs, cutting at the
+   leader's answer leaves a prefix of the leader's log and keeps everything both had in common. *)
+Theorem C02_reconcile_correct : forall r L, chain r L -> mono r ->
+  let r' := firstn (Z.to_nat (last_le (last_epoch r) L + 1)) r in
+  prefix r' L /\ forall c, prefix c r -> prefix c L -> prefix c r'.
+Proof. exact reconcile_correct. Qed.
+Print Assumptions C02_reconcile_correct.
+
+(* The leader's answer, computed from its leader-epoch cache, is that offset -- along any life of
+   appends (own or replicated), elections and truncations. *)
+Theorem C02_epoch_cache_answer : forall ops q, ops_ok ([], []) ops ->
+  answer true (snd (crun true ops)) (fst (crun true ops)) q = last_le q (fst (crun true ops)).
+Proof. exact cache_answer_exact. Qed.
+Print Assumptions C02_epoch_cache_answer.
+
+(* not vacuous: a history with two elections, a follower that kept an uncommitted tail, a shrink *)
+Example C02_history :
+  let c := run true (init_cluster [0; 1; 2]%N 0%N 4%N 2)
+             [KPublish 0; KPublish 1; KFetch 1 2; KFetch 2 2; KFetch 1 0; KPublish 2; KElect 1 5; KReconcile 0; KReconcile 2; KPublish 12;
+              KFetch 0 3; KFetch 0 0; KShrink 2; KPublish 13; KFetch 0 1; KFetch 0 0; KElect 0 6; KReconcile 1; KPublish 24; KFetch 1 2; KFetch 1 0]%N in
+  log_of c 0%N = [(4, 0); (4, 1); (5, 12); (5, 13); (6, 24)]%N /\ log_of c 1%N = log_of c 0%N /\ log_of c 2%N = [(4, 0); (4, 1)]%N /\
+  hw_of c 0%N = 4 /\ c_committed c = log_of c 0%N.
+Proof. vm_compute. repeat split; reflexivity. Qed.
+
+(* The pinned code, refuted twice. *)
+Theorem C02_refuted_epoch_boundary :
+  let '(log, c) := crun false [CElect 4; CAppend [(4, 0); (4, 1); (4, 2)]; CTruncate 2; CAppend [(5, 10); (5, 11)]; CElect 6]%N in
+  answer false c log 4%N = 2 /\ last_le 4%N log = 1 /\
+  (let '(log', c') := crun true [CElect 4; CAppend [(4, 0); (4, 1); (4, 2)]; CTruncate 2; CAppend [(5, 10); (5, 11)]; CElect 6]%N in answer true c' log' 4%N = 1).
+Proof. exact pinned_answer_refuted. Qed.
+Print Assumptions C02_refuted_epoch_boundary.
+
+Theorem C02_refuted_stale_offsets :
+  let c := run false (init_cluster [0; 1; 2]%N 0%N 4%N 1)
+             [KPublish 0; KPublish 1; KPublish 2; KPublish 3; KPublish 4; KPublish 5; KFetch 1 6; KFetch 1 0; KFetch 2 4; KFetch 2 0;
+              KElect 2 5; KReconcile 0; KReconcile 1; KPublish 14; KFetch 0 5; KFetch 1 5;
+              KElect 0 6; KReconcile 1; KReconcile 2; KPublish 25; KFetch 2 5; KFetch 2 0]%N in
+  hw_of c 0%N = 5 /\ length (log_of c 1%N) = 5%nat /\ In 1%N (c_isr c).
+Proof. exact stale_view_refuted. Qed.
+Print Assumptions C02_refuted_stale_offsets.
